@@ -35,6 +35,37 @@ def run(sc, tier, notes):
                 cgf_signature_pairs=st.get("signature_pairs"))
 
 
+LIFE_DEV = dict(DEV_DiameterListenersStay=True, DEV_EmptyIdAfter200=True)
+
+
+def run_life(sc, tier, notes):
+    """Application life cycle (spec/AppLife.tla): every configuration of the model is checked by TLC (safety + the
+    liveness property TerminationEnds under weak fairness) and its predicted outcome compared with a real run."""
+    cases = []
+    states = 0
+    for cgf in (False, True):
+        for ans in ("201", "200"):
+            consts = dict(CgfEnabled=cgf, NrfAnswer='"%s"' % ans, **LIFE_DEV)
+            mc, hists, cex = pipe.explore(sc, "AppLife", consts, ["ExitedClean", "DeregistersItself"], tier, notes=notes, workers=2,
+                                          properties=["TerminationEnds"])
+            states += mc["distinct"]
+            seen = set()
+            for h in hists:
+                k = json.dumps(h[0], sort_keys=True)
+                if k not in seen:
+                    seen.add(k)
+                    c = h[0]
+                    cases.append(dict(id="LIFE-%d" % len(cases), cgf=c["cgf"], answer=c["answer"], traffic=c["traffic"], expect=c["expect"]))
+    vfh = sc.build()
+    trace, n = pipe.run_harness(sc, vfh, "life", cases, chunk=1, nworkers=4, timeout=1800)
+    res = pipe.judge(sc, "AppLifeTrace", {}, trace, n)
+    for x in res["viol"][:6]:
+        notes.append("application life cycle (outside the listed properties): clause %s false at %s: %s" % (x["clause"], x["trace"], json.dumps(x["sit"])))
+    if res.get("div"):
+        notes.append("application life cycle: %d divergences from AppLife.tla, e.g. %s" % (len(res["div"]), json.dumps(res["div"][:2])))
+    return dict(life_model_states=states, life_runs=len(cases), life_clause_failures=len(res["viol"]), life_divergences=len(res.get("div", [])))
+
+
 def phase(tier):
     def ph(sc, v):
         try:
@@ -45,10 +76,10 @@ def phase(tier):
     return ph
 
 
-def main(tier):
-    sc = core.Scratch("cgf")
+def main(tier, name="cgf"):
+    sc = core.Scratch(name)
     notes = []
-    cov = run(sc, tier, notes)
+    cov = run(sc, tier, notes) if name == "cgf" else run_life(sc, tier, notes)
     print(json.dumps(cov, indent=1))
     for x in notes:
         print("NOTE:", x)
